@@ -97,7 +97,9 @@ def lens_by_split(shape, leaves, rooted, pat):
         if i == 0:
             continue
         groups.setdefault(s, []).append(i)
-    fn = {"ones": lambda s: 1.0, "f1": _f1, "f2": _f2, "missing1": _f1, "missing_int": _f1, "rootlen": _f1, "half0": _f1, "half1": _f1}[pat]
+    # huge1 / huge2: lengths around 2^30 that differ by the same small amounts as f1 / f2 do (a relative tolerance would call them equal)
+    fn = {"ones": lambda s: 1.0, "f1": _f1, "f2": _f2, "missing1": _f1, "missing_int": _f1, "rootlen": _f1, "half0": _f1, "half1": _f1,
+          "huge1": lambda s: 2.0 ** 30 + _f1(s), "huge2": lambda s: 2.0 ** 30 + _f2(s)}[pat]
     out = [None] * len(masks)
     for s, idxs in groups.items():
         l = fn(s)
@@ -322,7 +324,7 @@ def drawings(n, rooted, per_topology=3, unif=False):
 # (both argument orders are evaluated for every item, so mirrored pattern pairs would add little)
 PATTERN_PAIRS = [("none", "none"), ("ones", "ones"), ("f1", "f1"), ("f1", "f2"), ("rootlen", "f1"),
                  ("none", "f1"), ("missing1", "f1"), ("missing1", "missing1"), ("f2", "missing1"),
-                 ("missing_int", "f1"), ("f2", "missing_int"), ("half0", "f1"), ("half1", "half0")]
+                 ("missing_int", "f1"), ("f2", "missing_int"), ("half0", "f1"), ("half1", "half0"), ("huge1", "huge2")]
 
 
 def _pair_items(tier, seed):
@@ -361,7 +363,7 @@ def _pair_items(tier, seed):
                 items.append({"a": mkspec(sa, la, rooted, pa, default_ns(n)), "b": mkspec(sb, lb, rooted, pb, default_ns(n))})
     # namespaces larger than the leaf set / with removed taxa (n = 3, 4)
     for n in (3, 4):
-        for nsd, usable in [namespace_variants(n)[i] for i in (3, 4, 5)]:
+        for nsd, usable in [namespace_variants(n)[i] for i in (3, 4, 5, 7)]:
             ren = dict(zip(LABELS[:n], usable))
             for rooted in (True, False):
                 dr = drawings(n, rooted, 2)
